@@ -196,7 +196,7 @@ def main(argv=None):
                 extra.setdefault(k, []).append(v)
     # vacuity: every registered assertion site must have been evaluated on a feasible path
     unreached = []
-    if hasattr(meta, "SITES"):
+    if hasattr(meta, "SITES") and not a.only:
         for s in meta.SITES:
             if sites.get(s, 0) == 0:
                 unreached.append(s)
